@@ -377,6 +377,9 @@ def oracle(c, block):
                         released.pop(i, None)
                     elif i > psize:
                         return "get returned the out-of-range index %d" % i
+                    elif o[0] == "getu":
+                        return ("get_free_element (the variant that waits until a slot is released) returned %d = max_size to thread %d at step %d: that is not a slot of the pool "
+                                "(every caller that finds the pool full gets this same index)" % (i, t, step))
                 elif o[0] == "lock" or (o[0] == "trylock" and ret == "1"):
                     x = int(o[1])
                     if x in lock_holder:
